@@ -64,7 +64,7 @@ Print Assumptions C13_no_invalid_opcode.
    vm_safe_partial: for EVERY byte string below 2^27 bytes and EVERY fuel, load + verify + run never reaches Crash or a Signal,
    when the six repairs are present.  "partial": the run may end in Unmodelled, i.e. leave the modelled opcode set
    (all opcodes of the table except PUSH_F64, CAST_FLOAT, HM_NEW..HM_LEN, ADD/SUB/MUL/DIV with an array operand,
-   CALL_EXTERN with a valid import index, PRINT/PRINTLN of a closure); reference counting / free (C14) and the C stack depth
+   CALL_EXTERN with a valid import index); reference counting / free (C14) and the C stack depth
    of recursive C helpers on deep acyclic values are not part of this model. *)
 Theorem C13_vm_safe_partial : forall c data fuel,
   c13_fixed c = true -> bytes_ok data -> N.of_nat (List.length data) < BIG -> pipe_safe (pipeline c data fuel).
